@@ -141,6 +141,14 @@ func numericKeyFloat(v any) (float64, bool) {
 		return float64(x), true
 	case int32:
 		return float64(x), true
+	case int16:
+		return float64(x), true
+	case int8:
+		return float64(x), true
+	case uint16:
+		return float64(x), true
+	case uint8:
+		return float64(x), true
 	case uint:
 		return float64(x), true
 	case uint64:
